@@ -250,6 +250,15 @@ theorem C18_any_grants_iff (ms : List Authz) (n : Name) :
   · rintro ⟨pre, m, post, rfl, hpre, hm⟩
     exact C18_any_complete pre post m n (fun p hp => Or.inr (hpre p hp)) hm
 
+/-- No authorizer of a tree - at any nesting depth - is ever asked about an instance name that is
+not part of the request (`a.calls ns` lists the `Authorize` calls reaching the leaves). -/
+theorem C18_calls_within_batch (a : Authz) (ns : List Name) (id : Nat) (asked : List Name)
+    (h : (id, asked) ∈ a.calls ns) : ∀ n ∈ asked, n ∈ ns :=
+  calls_subset a ns (id, asked) h
+
+example : (Authz.any [.leaf 1 (fun n => if n = 0 then none else some ⟨7, 1⟩),
+      .leaf 2 (fun _ => none)]).calls [0, 1, 2, 1] = [(1, [0, 1, 2, 1]), (2, [1, 2, 1])] := by decide
+
 /-! ## The decorator -/
 
 theorem wellFormed_findMissing {ds : List Digest} {order : List Name}
